@@ -3,10 +3,12 @@ package exec
 import (
 	"encoding/json"
 	"fmt"
+	"github.com/go-task/task/v3/verifharness/sched"
 	"math/rand"
 	"os"
 	"strings"
 
+	"github.com/go-task/task/v3"
 	"github.com/go-task/task/v3/verifharness/common"
 	cg "github.com/go-task/task/v3/verifharness/coqgen"
 )
@@ -15,8 +17,10 @@ type Case struct {
 	Prog   *Prog   `json:"prog"`
 	Seed   int64   `json:"seed"`
 	Procs  int     `json:"procs"`
-	Stream string  `json:"stream"` // acyclic | cyclic
+	Stream string  `json:"stream"`           // acyclic | cyclic | directed | systematic
+	Prefix []int   `json:"prefix,omitempty"` // systematic: choice indices (canonical order of the parked writes)
 	Out    *RunOut `json:"out,omitempty"`
+	pre    *RunOut
 }
 
 func evCoq(e *Ev, hint []int) string {
@@ -104,6 +108,53 @@ func Main(args []string) {
 			}
 			cases = append(cases, c)
 		}
+		if o.Tier == "thorough" {
+			// systematic stream: depth-first enumeration of the controlled schedules (release orders at
+			// quiescent points, GOMAXPROCS=1) of one small program per shard, up to a budget
+			cr := rand.New(rand.NewSource(o.Seed ^ 0x5ca1ab1e))
+			// pick a program whose first run meets a point with at least two parked writes
+			var pg *Prog
+			for try := 0; try < 40; try++ {
+				var cand *Prog
+				if (o.Seed+int64(try))%2 == 0 {
+					cand = Directed(cr)
+				} else {
+					cand = Gen(cr, GenOpts{MaxTasks: 4, MaxActs: 10})
+				}
+				out, err := Execute(cand, 7, 1, nil, []int{})
+				if err != nil {
+					continue
+				}
+				pg = cand
+				if sched.NextPrefix(out.Taken, out.Width) != nil {
+					break
+				}
+			}
+			budget := 120
+			if v := o.Extra["sysbudget"]; v != "" {
+				fmt.Sscan(v, &budget)
+			}
+			prefix := []int{}
+			exhausted := false
+			n := 0
+			for ; pg != nil && n < budget; n++ {
+				c := &Case{Prog: pg, Seed: 0, Procs: 1, Stream: "systematic", Prefix: append([]int{}, prefix...)}
+				out, err := Execute(pg, 7, 1, nil, c.Prefix)
+				if err != nil {
+					break
+				}
+				c.pre = out
+				cases = append(cases, c)
+				prefix = sched.NextPrefix(out.Taken, out.Width)
+				if prefix == nil {
+					exhausted = true
+					n++
+					break
+				}
+			}
+			obs.Count(fmt.Sprintf("systematic-exhausted:%v", exhausted))
+			obs.Counters["systematic_schedules"] += int64(n)
+		}
 	}
 	var sb strings.Builder
 	sb.WriteString("From Coq Require Import List Arith Bool.\nImport ListNotations.\nFrom TV Require Import Exec.Model Exec.Monitors Exec.Replay Run.ExecCases.\n")
@@ -111,7 +162,17 @@ func Main(args []string) {
 	var idx []int
 	seen := map[string]bool{}
 	for i, c := range cases {
-		out, err := Execute(c.Prog, c.Seed+7, c.Procs, nil)
+		var out *RunOut
+		var err error
+		if c.pre != nil {
+			out = c.pre
+		} else {
+			pf := c.Prefix
+			if c.Stream == "systematic" && pf == nil {
+				pf = []int{}
+			}
+			out, err = Execute(c.Prog, c.Seed+7, c.Procs, nil, pf)
+		}
 		if err != nil {
 			obs.ImplFails = append(obs.ImplFails, common.ImplFail{Case: i, Kind: "harness", Msg: err.Error()})
 			obs.CaseInputs = append(obs.CaseInputs, c)
@@ -173,6 +234,11 @@ func Main(args []string) {
 			obs.ImplFails = append(obs.ImplFails, common.ImplFail{Case: i, Kind: "inconclusive", Msg: "scheduler overrun"})
 			continue
 		}
+		if out.Ambiguous {
+			obs.Count("ambiguous-attribution")
+			obs.ImplFails = append(obs.ImplFails, common.ImplFail{Case: i, Kind: "inconclusive", Msg: "a when_changed callee's line has more than one possible call site"})
+			continue
+		}
 		if len(out.Unparsed) > 0 {
 			obs.ImplFails = append(obs.ImplFails, common.ImplFail{Case: i, Kind: "unparsed-line", Msg: strings.Join(out.Unparsed, "")})
 			continue
@@ -188,7 +254,20 @@ func Main(args []string) {
 			obs.Samples = append(obs.Samples, map[string]any{"prog": c.Prog, "schedule": out.Schedule, "result": out.ResultStr})
 		}
 	}
-	obs.Cases = len(cases)
+	if o.Extra["fanout"] != "" && o.Replay == "" {
+		// acyclic fan-out: one task referenced MaximumTaskCall times from an acyclic program must
+		// still run to completion (C07: "terminates having run all required work")
+		obs.Cases++
+		if n, res, err := Fanout(task.MaximumTaskCall); err != nil {
+			obs.ImplFails = append(obs.ImplFails, common.ImplFail{Case: len(cases), Kind: "harness", Msg: err.Error()})
+		} else if res != "ROk" || n != task.MaximumTaskCall {
+			obs.ImplFails = append(obs.ImplFails, common.ImplFail{Case: len(cases), Kind: "acyclic-fanout-trips-call-counter",
+				Msg: fmt.Sprintf("acyclic program: default calls leaf %d times; %d executions, result %s", task.MaximumTaskCall, n, res)})
+		}
+		obs.CaseInputs = append(obs.CaseInputs, map[string]any{"stream": "fanout", "calls": task.MaximumTaskCall})
+		obs.Count("stream:fanout")
+	}
+	obs.Cases += len(cases)
 	fmt.Fprintf(&sb, "Definition cases : list ecase := %s.\n", cg.List(items))
 	names := []string{"C01", "calls", "waits", "C02", "C03", "C03s", "C06", "C07", "C13", "C14", "eager"}
 	for _, n := range names {
